@@ -147,6 +147,13 @@ fn handle(ctx: &mut Option<Context>, cmd: &J) -> J {
                 Err(e) => json!({"ok": false, "err": e}),
             }
         }
+        "lookup" => {
+            let name = cmd["name"].as_str().unwrap_or("");
+            match ctx.as_ref().and_then(|c| c.lookup(name)) {
+                Some(n) => json!({"found": true, "exact": crate::oracle::regdump::number_text(&n)}),
+                None => json!({"found": false}),
+            }
+        }
         "load_dates" => {
             let text = cmd["text"].as_str().unwrap_or("");
             if ctx.is_none() {
